@@ -25,7 +25,7 @@ def expDumpTrace : List String := [
   "log_message (NULL, \"\\t%s() at %s, in program /%s (object %s)\\n\", ftd.name,",
   "get_line_number (p[1].pc, p[1].prog), p[1].prog->name, p[1].ob->name)",
   "if (strcmp (ftd.name, \"heart_beat\") == 0)",
-  "ret = p->ob ? p->ob->name : 0",
+  "ret = p[1].ob ? p[1].ob->name : 0",
   "case FRAME_FUNP:",
   "log_message (NULL, \"\\t(function) at %s, in program /%s (object %s)\\n\",",
   "get_line_number (p[1].pc, p[1].prog), p[1].prog->name, p[1].ob->name)",
